@@ -378,7 +378,7 @@ package ledger
 //@   ensures items_same() && ((result1 == nil) <==> (result0 != nil))
 //@   ensures result1 == nil ==> wf_delg(result0) && itemkey[result0] == key
 //@   ensures result1 == nil ==> result0 == delgof(l, key, 0)
-//@   ensures result1 == nil ==> pw_ok(result0)
+//@   ensures result1 == nil ==> pw_ok(result0) && stakes_ok(result0)
 
 //@ func (l IFinalityLedger_delegateeLedger) GetFinality(key)
 //@   requires cons_ok                                                                     [C06]
@@ -387,7 +387,7 @@ package ledger
 //@   ensures items_same() && ((result1 == nil) <==> (result0 != nil))
 //@   ensures result1 == nil ==> wf_delg(result0) && itemkey[result0] == key
 //@   ensures result1 == nil ==> result0 == delgof(l, key, 1)
-//@   ensures result1 == nil ==> pw_ok(result0)
+//@   ensures result1 == nil ==> pw_ok(result0) && stakes_ok(result0)
 
 //@ func (l ILedger_delegateeLedger) Set(item)
 //@   requires !cons_ok                                                                     [C06]
@@ -478,6 +478,7 @@ package ledger
 //@   ensures items_same() && ((result1 == nil) <==> (result0 != nil))
 //@   ensures result1 == nil ==> wf_rwd(result0) && itemkey[result0] == key
 //@   ensures result1 == nil ==> result0 == rwdof(l, key, 0)
+//@   ensures result1 == nil ==> result0.height <= blockHeight && rwd_sep(result0)
 
 //@ func (l IFinalityLedger_rewardLedger) GetFinality(key)
 //@   requires cons_ok                                                                     [C06]
@@ -486,6 +487,7 @@ package ledger
 //@   ensures items_same() && ((result1 == nil) <==> (result0 != nil))
 //@   ensures result1 == nil ==> wf_rwd(result0) && itemkey[result0] == key
 //@   ensures result1 == nil ==> result0 == rwdof(l, key, 1)
+//@   ensures result1 == nil ==> result0.height <= blockHeight && rwd_sep(result0)
 
 //@ func (l ILedger_rewardLedger) Set(item)
 //@   requires !cons_ok                                                                     [C06]
@@ -525,3 +527,23 @@ package ledger
 //@   trusted
 //@   pure
 //@   ensures result == lkey(content(s))
+
+// iteration over the committed delegatees with the candidate filter of StakeCtrler.BeginBlock as callback
+// (the callback has its own contract: (*StakeCtrler).BeginBlock__1); the ledger itself is only read
+//@ func (l IFinalityLedger_delegateeLedger) IterateReadAllFinalityItems(cb)
+//@   requires cons_ok                                                                     [C06]
+//@   modifies StakeCtrler.allDelegatees, allelems(StakeCtrler.allDelegatees), itemkey, itemenc
+//@   allocates Delegatee, Stake, BlockMarker, uint256.Int, []*Delegatee
+//@   ensures items_same()
+
+//@ func (l IFinalityLedger_delegateeLedger) ImmutableLedgerAt(h, cacheSize)
+//@   modifies itemkey, itemenc
+//@   allocates SimpleLedger, memItems
+//@   ensures result1 == nil ==> result0 != nil && fresh(result0) && immuheight[result0] == h
+
+// the historical view StakeCtrler.BeginBlock opens for rewarding (local variable immuDelegateeLedger)
+//@ func (l ILedger_immuDelegateeLedger) Get(key)
+//@   modifies allmaps(memItems.gotItems), itemkey, itemenc
+//@   allocates Delegatee, Stake, BlockMarker, uint256.Int
+//@   ensures items_same() && ((result1 == nil) <==> (result0 != nil))
+//@   ensures result1 == nil ==> wf_delg(result0) && pw_ok(result0) && stakes_ok(result0) && itemkey[result0] == key && result0 == delgof(l, key, 2)
